@@ -99,7 +99,9 @@ def replay_inst(sigs, one, two, stats):
             bad.append(("one-step:" + d[0], {"id": json.loads(k), "sig": sigs[k], "a": av, "differ": d, "code": pg, "spec": r}))
     for p in two:
         k = json.dumps(p["id"])
-        r = one[(k, json.dumps(p["a12"]))]
+        r = one.get((k, json.dumps(p["a12"])))
+        if r is None:
+            raise lib.Machinery(f"TypeAlg_Inst printed no one-step entry for the composed vector of {json.dumps(p)[:400]}")
         try:
             g = fn(k).instantiate_partial(args_of(p["a1"]))
             h = g.instantiate_partial(args_of(p["a2"]))
